@@ -1,6 +1,7 @@
 """Stands where a language server process stands for JsonRPCClient.start_io: writes the pieces named in
 the JSON spec file (argv[1]: {"pause": seconds, "pieces": [hex,...]}) to stdout, one by one, flushing and
-pausing after each, then closes stdout and lingers briefly so that the client reads EOF before the exit."""
+pausing after each, then closes stdout and lingers briefly so that the client reads EOF before the exit -
+or, with "exit": <status> in the spec, exits with that status IMMEDIATELY after the last flush."""
 import json, os, sys, time
 spec = json.load(open(sys.argv[1]))
 out = sys.stdout.buffer
@@ -8,6 +9,9 @@ for h in spec["pieces"]:
     out.write(bytes.fromhex(h))
     out.flush()
     time.sleep(spec["pause"])
+if spec.get("exit") is not None:
+    # a server that writes its last messages and is gone at once: no close, no lingering
+    os._exit(int(spec["exit"]))
 out.close()
 try:
     os.close(1)
